@@ -237,7 +237,7 @@ def feature_names_for(deriv_type: str, ul_type: str, listed: bool) -> List[str]:
 
 
 @st.composite
-def scenario(draw, ul_types=None, deriv_types=None, models=("linear", "mlp", "naked", "bs", "ww", "recurrent"),
+def scenario(draw, ul_types=None, deriv_types=None, models=("linear", "mlp", "naked", "bs", "ww", "recurrent", "identity"),
              dtype="any", min_steps=2, max_steps=8, max_paths=8, cost=True, allow_prev_hedge=True,
              hedge_kinds=("default", "ul", "ul+listed", "ul+listed+listed", "varswap"), extra_features=True):
     ul = draw(primary_spec(types=ul_types, dtype=dtype, cost=cost, dts=[1 / 250, 1 / 250, 1 / 52, 0.01]))
@@ -252,6 +252,14 @@ def scenario(draw, ul_types=None, deriv_types=None, models=("linear", "mlp", "na
             deriv["call"] = True  # puts are documented as unsupported by these BS modules
         hedge_kind = draw(st.sampled_from(["default", "ul"]))
         inputs: List[Any] = ["__model__"]
+    elif model == "identity":
+        # a user model whose output aliases its input: one feature that is a view of a simulated buffer, one hedge
+        deriv = draw(derivative_spec(types=deriv_types, min_steps=min_steps, max_steps=max_steps))
+        deriv["listed"] = False
+        hedge_kind = draw(st.sampled_from(["default", "ul"]))
+        views = ["underlier_spot"] + (["variance"] if ul["type"] in ("HestonStock", "RoughBergomiStock") else []) + \
+            (["volatility"] if ul["type"] == "LocalVolatilityStock" else [])
+        inputs = [draw(st.sampled_from(views))]
     else:
         deriv = draw(derivative_spec(types=deriv_types, min_steps=min_steps, max_steps=max_steps))
         hk = [h for h in hedge_kinds if not (h == "varswap" and ul["type"] not in STOCKS)]
@@ -355,6 +363,8 @@ def build_scenario(spec: Dict[str, Any]):
             model = MultiLayerPerceptron(n_feat, H, n_layers=2, n_units=4)
         elif m == "mlp_tanh":
             model = MultiLayerPerceptron(n_feat, H, n_layers=2, n_units=4, activation=torch.nn.Tanh())
+        elif m == "identity":
+            model = torch.nn.Identity()
         elif m == "naked":
             model = Naked(H)
         elif m == "recurrent":
